@@ -11,7 +11,9 @@ import random
 from .. import config, record, runner, tlc, workertrace
 
 THRESHOLDS = [[1, 3], [1, 2], [2, 3], [1, 1], [3, 10], [7, 10], [4, 5], [5, 7], [41, 100],
-              [58, 100], [82, 100], [1, 4], [1, 7], [2, 7], [9, 10]]
+              [58, 100], [82, 100], [1, 4], [1, 7], [2, 7], [9, 10],
+              # thresholds that need more than two / four decimals
+              [33333, 100000], [33334, 100000], [66667, 100000], [70711, 100000], [49999, 100000], [618, 1000]]
 OUTS = [None, None, [], ['a'], ['b', 'a'], ['s'], ['id', 'a'], ['a', 'a'], ['b', 's', 'a'],
         ['a', 'b', 'a'], ['s', 's']]
 COLORDERS = [['id', 's', 'a', 'b'], ['a', 's', 'b', 'id'], ['s', 'b', 'id', 'a'], ['b', 'a', 's', 'id']]
@@ -35,9 +37,17 @@ def index_labels(rng, n):
     return ['r%d' % (i % 2) for i in range(n)]
 
 
+KEYKINDS = ['int', 'int', 'int', 'str', 'neg', 'float', 'big']
+
+
+def key_value(kind, k):
+    return {'int': k, 'str': 'key-%d' % k, 'neg': -k, 'float': k + 0.5, 'big': 3000000000 + k}[kind]
+
+
 def table_spec(rng, side, values, render, sdtype='object'):
     """values: list of abstract join values (None = missing)."""
-    keys = LKEYS if side == 'L' else RKEYS
+    kind = rng.choice(KEYKINDS)
+    keys = [key_value(kind, k) for k in (LKEYS if side == 'L' else RKEYS)]
     order = rng.choice(COLORDERS)
     rows = []
     for i, v in enumerate(values):
@@ -46,7 +56,7 @@ def table_spec(rng, side, values, render, sdtype='object'):
                  'b': None if (i + (0 if side == 'L' else 1)) % 3 == 1 else '%s%d' % ('x' if side == 'L' else 'y', i)}
         rows.append([cells[c] for c in order])
     return {'cols': order, 'rows': rows, 'index': index_labels(rng, len(values)),
-            'strcols': ['s', 'b'], 'sdtype': sdtype}
+            'strcols': ['s', 'b'] + (['id'] if kind == 'str' else []), 'sdtype': sdtype}
 
 
 def render_set(rng):
